@@ -54,6 +54,22 @@ class Shadow:
         self.nodes = [self.root]
         self.next_cid = 1
         self.nss = ['i'] + (['j'] if cfg.get('joliet') else []) + (['u'] if cfg.get('udf') else [])
+        # history families (shapes that uniform sampling practically never produces):
+        #   burst     - one directory (root, or a directory that itself has a sub-directory) receives 33..92 equally long
+        #               names so that its records end exactly on / just before / just after a sector boundary, then shrinks
+        #   resurrect - removed names come back (same identifiers), and the resurrected directory gets children
+        #   rrhole    - Rock Ridge names of nearly equal, continuation-area lengths, so freed holes are reused +-1 byte
+        r = rng.random()
+        self.family = 'plain' if r < 0.5 else 'burst' if r < 0.72 else 'resurrect' if r < 0.9 else 'rrhole'
+        self.graveyard = []
+        self.freed_rr_len = None
+        self.focus_parent = None
+        self.plan = []
+        self.burst_dir = None
+        self.burst_files = []
+        if self.family == 'burst':
+            self._plan_burst()
+        self.extra = len(self.plan)
 
     # ---- names
     def iso_name(self, is_dir, siblings):
@@ -98,6 +114,10 @@ class Shadow:
         pool = string.ascii_letters + string.digits + '._-+ ,='
         for _ in range(30):
             ln = rng.choice([1, 2, 4, 8, 11, 20, 40, 80, 120, 152, 190, 200, 249, 255])
+            if rng.random() < (0.8 if self.family == 'rrhole' else 0.08):
+                ln = rng.choice([200, 201, 202, 209, 210, 211, 212])
+                if self.freed_rr_len and rng.random() < 0.7:
+                    ln = max(1, min(255, self.freed_rr_len + rng.choice([1, 1, 1, 0, -1, 2])))
             s = ''.join(rng.choice(pool) for _ in range(ln))
             if rng.random() < 0.1:
                 s = s[: max(1, ln - 2)] + rng.choice(['é', 'ß', '中'])
@@ -168,10 +188,88 @@ class Shadow:
     def remove(self, node):
         node.parent.children.remove(node)
         self.nodes.remove(node)
+        if node.rr:
+            self.freed_rr_len = len(node.rr.encode('utf-8'))
+        if node.kind in ('dir', 'file') and node.names:
+            self.graveyard.append((node.parent, node.kind == 'dir', dict(node.names), node.rr))
 
     # ---- ops
+    def _plan_burst(self):
+        rng = self.rng
+        k = rng.choice([44, 45, 45, 45, 46, 33, 90, 91, 92])
+        r = rng.random()
+        if r < 0.35:
+            self.plan.append(('dir', 'top'))          # grows and shrinks while it has a sub-directory ('..' of SUB)
+            self.plan.append(('dir', 'sub'))
+        elif r < 0.6:
+            self.plan.append(('dir', 'top'))          # 68 + 45 x 44 = 2048 exactly, as for the root
+        self.plan += [('file', i) for i in range(k)]
+        self.plan.append(('rmfiles', rng.choice([1, 2, k // 2, k - 2, k - 1])))
+
+    def _planned(self):
+        rng = self.rng
+        step = self.plan.pop(0)
+        if step[0] == 'dir':
+            parent = self.root if step[1] == 'top' else self.burst_dir
+            if parent is None or parent not in self.nodes:
+                self.plan = []
+                return None
+            tag = 'BD%02d' % rng.randrange(100) if step[1] == 'top' else 'SUB'
+            nss = [ns for ns in self.nss if parent.parent is None or ns in parent.names]
+            names = {ns: (tag if ns == 'i' else tag.lower()) for ns in nss}
+            if any(names[ns] in self.siblings(parent, ns) for ns in nss):
+                return None
+            node = Node('dir', parent, names, rr=tag.lower() if self.cfg.get('rr') and 'i' in names else None)
+            if step[1] == 'top':
+                self.burst_dir = node
+            op = {'op': 'adddir'}
+            self._fill_paths(op, parent, node)
+            return op, ('add', node)
+        parent = self.burst_dir or self.root
+        if parent not in self.nodes:
+            self.plan = []
+            return None
+        if step[0] == 'file':
+            i = step[1]
+            nss = [ns for ns in self.nss if parent.parent is None or ns in parent.names]
+            # 11-character ISO9660 identifiers and 5-character Joliet names: 45 such records fill a sector exactly
+            names = {ns: ('FILE%04d.;1' % i if ns == 'i' else 'f%04d' % i) for ns in nss}
+            if any(names[ns] in self.siblings(parent, ns) for ns in nss):
+                return None
+            node = Node('file', parent, names, blob=self.next_cid, rr='f%04d' % i if self.cfg.get('rr') and 'i' in names else None)
+            op = {'op': 'addfp', 'cid': self.next_cid, 'n': rng.choice([0, 1, 1, 700])}
+            self.next_cid += 1
+            self._fill_paths(op, parent, node)
+            self.burst_files.append(node)
+            return op, ('add', node)
+        if step[0] == 'rmfiles':
+            live = [n for n in self.burst_files if n in self.nodes]
+            if step[1] > 1 and len(live) > 1:
+                self.plan.insert(0, ('rmfiles', step[1] - 1))
+            if not live:
+                return None
+            node = rng.choice(live)
+            ns = rng.choice(sorted(node.names))
+            return {'op': 'rmfile', 'ns': ns, 'path': node.path(ns)}, ('rmblob', node)
+        return None
+
+    def _resurrect(self, parent, nss, is_dir):
+        """names of an entry removed earlier from this parent, if they are free again"""
+        p = 0.6 if self.family == 'resurrect' else 0.12
+        if not self.graveyard or self.rng.random() >= p:
+            return None
+        cands = [g for g in self.graveyard if g[0] is parent and g[1] == is_dir and sorted(g[2]) == sorted(nss)
+                 and all(g[2][ns] not in self.siblings(parent, ns) for ns in nss)
+                 and (g[3] is None or g[3] not in {c.rr for c in parent.children if c.rr})]
+        if not cands:
+            return None
+        g = self.rng.choice(cands)
+        return dict(g[2]), g[3]
+
     def gen_op(self):
         rng, cfg = self.rng, self.cfg
+        if self.plan:
+            return self._planned()
         if cfg.get('duppvd') and rng.random() < 0.04:
             return {'op': 'duppvd'}, None
         limit = 7 if (not cfg.get('rr') and cfg['ilevel'] < 4) else 9
@@ -183,10 +281,12 @@ class Shadow:
         r = {'addfp': 0.0, 'adddir': 0.40, 'rmfile': 0.60, 'rmdir': 0.66, 'addlink': 0.72, 'rmlink': 0.82, 'addsym': 0.88, 'hide': 0.95}[pick]
         if r < 0.36:
             parent = rng.choice(self.dirs())
+            if self.focus_parent is not None and self.focus_parent in self.nodes and rng.random() < 0.7:
+                parent = self.focus_parent
             nss = self.pick_namespaces(parent)
             if not nss:
                 return None
-            names, rr = self.make_names(parent, nss, False)
+            names, rr = self._resurrect(parent, nss, False) or self.make_names(parent, nss, False)
             if names is None:
                 return None
             node = Node('file', parent, names, blob=self.next_cid, rr=rr)
@@ -202,10 +302,13 @@ class Shadow:
             nss = self.pick_namespaces(parent)
             if not nss:
                 return None
-            names, rr = self.make_names(parent, nss, True)
+            back = self._resurrect(parent, nss, True)
+            names, rr = back or self.make_names(parent, nss, True)
             if names is None:
                 return None
             node = Node('dir', parent, names, rr=rr)
+            if back:
+                self.focus_parent = node
             op = {'op': 'adddir'}
             self._fill_paths(op, parent, node)
             return op, ('add', node)
@@ -234,6 +337,11 @@ class Shadow:
             names, rr = self.make_names(parent, [nns], False)
             if names is None:
                 return None
+            # a link that keeps the base name of the original in another directory (records that compare equal)
+            if nns in old.names and parent is not old.parent and rng.random() < 0.4 and old.names[nns] not in self.siblings(parent, nns):
+                names = {nns: old.names[nns]}
+                if rr is not None and old.rr and old.rr not in {c.rr for c in parent.children if c.rr}:
+                    rr = old.rr
             node = Node('file', parent, names, blob=old.blob, rr=rr)
             op = {'op': 'addlink', 'ons': ons, 'old': old.path(ons), 'nns': nns}
             node.parent = parent
@@ -319,3 +427,78 @@ class Shadow:
                 node.rr = None
             if not node.names:
                 self.remove(node)
+
+
+# ------------------------------------------------------------------ directed histories (run first, every run)
+def _names(cfg, parent, iso, other, rr=None):
+    """paths of one new entry in every namespace the configuration has; parent = (iso_parent, other_parent)"""
+    op = {'iso': parent[0] + '/' + iso}
+    if cfg.get('rr'):
+        op['rr'] = rr or other
+    if cfg.get('joliet'):
+        op['joliet'] = parent[1] + '/' + other
+    if cfg.get('udf'):
+        op['udf'] = parent[1] + '/' + other
+    return op
+
+
+def directed(cfg):
+    """Edit histories for shapes that random generation reaches too rarely: directories that fill a sector exactly,
+    directories that grow and shrink while they have sub-directories, names that come back after a removal, and Rock
+    Ridge continuation entries that reuse a freed hole of almost the same size.  Returns [(label, ops)]."""
+    out = []
+    cid = [1000]
+
+    def addfp(parent, iso, other, n=1, rr=None):
+        cid[0] += 1
+        d = {'op': 'addfp', 'cid': cid[0], 'n': n}
+        d.update(_names(cfg, parent, iso, other, rr))
+        return d
+
+    def adddir(parent, iso, other):
+        d = {'op': 'adddir'}
+        d.update(_names(cfg, parent, iso, other))
+        return d
+
+    def rm(kind, parent, iso, other):
+        if kind == 'rmfile':
+            return {'op': 'rmfile', 'ns': 'i', 'path': parent[0] + '/' + iso}
+        d = {'op': 'rmdir', 'iso': parent[0] + '/' + iso}
+        if cfg.get('joliet'):
+            d['joliet'] = parent[1] + '/' + other
+        if cfg.get('udf'):
+            d['udf'] = parent[1] + '/' + other
+        return d
+    root = ('', '')
+    bd = ('/BD', '/bd')
+    for k in (44, 45, 46):
+        out.append(('fill-root-%d' % k, [addfp(root, 'FILE%04d.;1' % i, 'f%04d' % i, n=i % 3) for i in range(k)]))
+    out.append(('fill-dir-45', [adddir(root, 'BD', 'bd')] + [addfp(bd, 'FILE%04d.;1' % i, 'f%04d' % i) for i in range(45)]))
+    out.append(('fill-root-2sectors', [addfp(root, 'FILE%04d.;1' % i, 'f%04d' % i, n=0) for i in range(91)] +
+                [rm('rmfile', root, 'FILE%04d.;1' % i, '') for i in range(0, 91, 2)]))
+    ops = [adddir(root, 'BD', 'bd'), adddir(bd, 'SUB', 'sub')] + [addfp(bd, 'FILE%04d.;1' % i, 'f%04d' % i) for i in range(50)]
+    ops.append(addfp(('/BD/SUB', '/bd/sub'), 'DEEP.;1', 'deep', n=5))
+    ops += [rm('rmfile', bd, 'FILE%04d.;1' % i, '') for i in range(48)]
+    out.append(('grow-shrink-with-subdir', ops))
+    d1 = ('/D1', '/d1')
+    out.append(('resurrect', [adddir(root, 'D1', 'd1'), addfp(d1, 'A.;1', 'a', n=3),
+                              {'op': 'query', 'ns': 'j', 'path': '/d1'} if cfg.get('joliet') else {'op': 'query', 'ns': 'i', 'path': '/D1'}, rm('rmfile', d1, 'A.;1', ''),
+                              rm('rmdir', root, 'D1', 'd1'), adddir(root, 'D1', 'd1'), addfp(d1, 'FOO.;1', 'foo', n=4),
+                              addfp(root, 'BAR.;1', 'bar', n=2), rm('rmfile', root, 'BAR.;1', ''), addfp(root, 'BAR.;1', 'bar', n=7)]))
+    # hard links that keep the base name of the original in another directory; the data moves afterwards
+    foo = addfp(root, 'FOO.;1', 'foo', n=5400)
+    ops = [foo, adddir(root, 'DIR1', 'dir1'), addfp(root, 'AAA.;1', 'aaa', n=100)]
+    ln = {'op': 'addlink', 'ons': 'i', 'old': '/FOO.;1', 'nns': 'i', 'new': '/DIR1/FOO.;1'}
+    if cfg.get('rr'):
+        ln['rr'] = 'foo'
+    ops += [ln, {'op': 'rmlink', 'ns': 'i', 'path': '/DIR1/FOO.;1'}] + [adddir(root, 'N%d' % i, 'n%d' % i) for i in range(4)]
+    out.append(('link-same-name-removed', ops))
+    ops2 = [dict(o) for o in ops[:4]] + [{'op': 'rmlink', 'ns': 'i', 'path': '/FOO.;1'}] + [adddir(root, 'M%d' % i, 'm%d' % i) for i in range(4)]
+    out.append(('link-same-name-original-removed', ops2))
+    if cfg.get('rr'):
+        for delta in (1, 0, -1, 2):
+            ops = [addfp(root, 'AAAA.;1', 'aaaa', rr='a' * 200), addfp(root, 'BBBB.;1', 'bbbb', rr='b' * 210),
+                   addfp(root, 'CCCC.;1', 'cccc', rr='c' * 220), rm('rmfile', root, 'BBBB.;1', ''),
+                   addfp(root, 'DDDD.;1', 'dddd', rr='d' * (210 + delta))]
+            out.append(('rr-hole%+d' % delta, ops))
+    return out
